@@ -69,6 +69,8 @@ def read_multi(lit: str) -> str:
     """Multi-line literal incl. its triple quotes, by the four documented rules."""
     body = lit[3:-3]
     lines = body.split("\n")
+    if len(lines) > 1 and lines[-1] == "":
+        lines.pop()    # lines are terminated, not separated, by newlines
     first = lines[0]
     rest = lines[1:]
     last_removed = False
